@@ -34,6 +34,6 @@ YOUR TASK: produce {n} DIFFERENT, independent, realistic changes to the library'
   - demo_test.go : a Go test in package dns (or dns_test) that FAILS with the change applied and PASSES on the clean checkout; it must be deterministic. (It is kept outside the repo; to run it copy it into the worktree temporarily.)
   - meta.json : {{"property": "{pid}", "summary": "<one line>", "needs": "<what specific input/sequence/schedule is needed for it to manifest>", "files": [...], "ran": ["<commands you ran and their outcome>"]}}
 
-PROCEDURE for each change: make the edit in the worktree; run the full suite (must pass); copy in demo_test.go and run `go test -vet=off -count=1 -run <YourTestName> .` (must FAIL); save patch.diff (excluding the demo test); `git checkout -- . && git clean -fd` in the worktree; copy demo_test.go in again and run it (must PASS on the clean tree); remove it. Only keep changes for which you observed all three outcomes yourself. Leave the worktree clean at the end.
+PROCEDURE for each change: make the edit in the worktree; run the full suite (must pass); copy in demo_test.go and run `go test -vet=off -count=1 -run <YourTestName> .` (must FAIL); save patch.diff (excluding the demo test); `git checkout -- . && git clean -fd` in the worktree; copy demo_test.go in again and run it (must PASS on the clean tree); remove it. Only keep changes for which you observed all three outcomes yourself. Leave the worktree clean at the end. Never use `git stash` (the stash is shared by all worktrees of the repository and other people work in theirs at the same time): save a change with `git diff > file` and undo it with `git checkout -- .`.
 
 Final answer: for each kept change, the one-line summary, what it needs to manifest, and the three observed outcomes.""")
